@@ -11,7 +11,8 @@ TRUSTED = [
 ASSUMPTIONS = [
     "datetime.date(y, m, d) construction is modelled by the validity predicate Cal.ValidYMD (theorem shows the triple is valid)",
 ]
-RULE = ("exhaustive: every (year, method) with year in 1583..4099 for methods 2,3 and 326..9999 for method 1 "
+RULE = ("exhaustive: every (year, method) with year in 1583..4099 for methods 2,3 and 326..9999 for method 1; every year 1583..4099 "
+        "again with the three methods called in a rotating order and the first one repeated (call histories) "
         "(plus years 1..9999 for translator validation and invalid methods); distinct = distinct (year, method); "
         "non-trivial = method in 1..3 inside its documented range")
 
@@ -86,6 +87,25 @@ def oracle(ctx):
                 got = type(ex).__name__
             if got != want:
                 ctx.violation("easter(%d, %r) gave %s, expected %s" % (y, m, got, want), {"year": y, "method": repr(m)}, {"impl": got})
+    # HISTORY: easter() is a function of (year, method) alone.  Call the three methods for one year in every order, and
+    # every year twice, in one process: a memo keyed too coarsely (e.g. by (year, method < 3)), or any other state kept
+    # between calls, makes the answer depend on the calls made before.  The case records the calls made so far for that
+    # year so that the replay repeats the history, not just the last call.
+    import itertools
+    spec_of = dict(zip(cases, spec))
+    years = [y for y in range(1583, 4100)]
+    orders = list(itertools.permutations((1, 2, 3)))
+    for i, y in enumerate(years):
+        order = orders[i % 6]
+        hist = []
+        for m in order + order[:1]:
+            g = impl_easter(y, m)
+            hist.append(m)
+            ctx.case(("hist", y, tuple(hist))); ctx.count("history_calls")
+            if g != spec_of[(y, m)]:
+                ctx.violation("after easter(%d, m) for m in %s the call easter(%d, %d) = %s but the canonical date is %s (the answer depends on earlier calls)"
+                              % (y, hist[:-1], y, m, g, spec_of[(y, m)]), {"year": y, "method": m, "history": hist[:-1]},
+                              {"impl": g, "spec": spec_of[(y, m)]})
     ctx.sample({"year": 2024, "method": 3, "impl": impl_easter(2024, 3)})
     ctx.sample({"year": 2024, "method": 2, "impl": impl_easter(2024, 2)})
     ctx.sample({"year": 326, "method": 1, "impl": impl_easter(326, 1)})
@@ -98,6 +118,8 @@ def replay(ctx, payload):
     c = payload["violation"]["case"]
     y, m = c["year"], c["method"]
     s = ctx.driver(["easter.spec %d %d" % (y, m)])[0]
+    for hm in c.get("history", []):          # repeat the calls made before the failing one
+        impl_easter(y, hm)
     g = impl_easter(y, m)
     print("easter(%d,%d): impl=%s spec=%s" % (y, m, g, s))
     return g == s
